@@ -293,7 +293,7 @@ CHECKS["C04"] = dict(
         dict(name="H04b-urldecoder", pkgs=["./s3api"], entry="s3api.VfDecodeURL", redirects="spec/redirects_auth.json", reach=["passed-on", "refused"]),
     ],
     assumptions=["file-system model: component-wise resolution, '..' really walks up", "bucket and key reach the backend only through the request path, except the keys of a batch delete (request document) which are covered by H04a"],
-    outside=["symlinks", "sidecar metadata store", "admin API parameters", "GetObjectAttributes / tagging version ids", "hostile values of more than 3 (4) segments",
+    outside=["symlinks", "sidecar metadata store", "admin API parameters other than the bucket of change-bucket-owner", "GetObjectAttributes / tagging version ids", "hostile values of more than 3 (4) segments",
              "percent-encoding beyond one decoding pass is the URL decoder's real behaviour (net/url is executed from its SSA)"],
 )
 
